@@ -12,8 +12,9 @@ Definition code_fix_dup : bool := true.       (* /repo 3b20437: a snapshot name 
 Definition code_fix_rev : bool := true.       (* f10-revert-target.diff *)
 Definition code_fix_commit : bool := false.   (* f11-createdisk-commit.diff *)
 Definition code_fix_children : bool := true.  (* f12-children-entry.diff *)
+Definition code_fix_mem : bool := true.       (* /repo 0472ed5, 0c1a1af, a3198e0: Resize / SetCheckpoint / createDisk assign to the Replica only after the last write *)
 Definition code_cfg (maxlen : nat) : cfg :=
-  mkcfg maxlen code_fixed code_fix_dup code_fix_rev code_fix_commit code_fix_children.
+  mkcfg maxlen code_fixed code_fix_dup code_fix_rev code_fix_commit code_fix_children code_fix_mem.
 
 (** ** equality tests *)
 Definition on_eqb (a b : option N) : bool :=
